@@ -148,6 +148,8 @@ class Adapter:
     has_set_edge_metadata = True
     has_set_node_metadata = True
     dup_check_in_weighted_batch = True
+    other_containers = False        # add_edge also tried with list / frozenset node containers
+    container = None
     alt_keys = ("nodes_meta", "node_meta", "edges_meta", "edge_meta")
 
     # ---- records
@@ -324,6 +326,12 @@ def resolve(ad, aop, model, U):
         c["e"] = _edge_from(ad, aop["edge"], model, U)
         c["w"] = aop["w"]
         c["meta"] = aop["meta"]
+        if aop.get("container") and ad.other_containers:
+            # the node set handed over in a container other than the documented tuple (list,
+            # frozenset): storing it correctly and refusing it cleanly (TypeError / ValueError,
+            # nothing changed) are both allowed -- storing something else is not
+            c["container"] = aop["container"]
+            c["either"] = True
     elif k == "add_edges":
         c["es"] = [_edge_from(ad, s, model, U) for s in aop["edges"]]
         c["ws"] = aop["ws"][: len(c["es"])] if aop["ws"] is not None else None
@@ -510,7 +518,11 @@ def apply_real(ad, h, c):
         else:
             ad.r_add_nodes(h, c["ns"], metas)
     elif k == "add_edge":
-        ad.r_add_edge(h, c["e"], c["w"], dc(c["meta"]))
+        ad.container = c.get("container")
+        try:
+            ad.r_add_edge(h, c["e"], c["w"], dc(c["meta"]))
+        finally:
+            ad.container = None
     elif k == "add_edges":
         ad.r_add_edges(h, c["es"], list(c["ws"]) if c["ws"] is not None else None,
                        [dc(m) for m in c["metas"]] if c["metas"] is not None else None)
@@ -764,11 +776,11 @@ def check_history(ad, case, ctx):
             raise
         except Exception as e:  # the library rejected (or crashed on) the operation
             raised = e
-        if c.get("either") and accepted and isinstance(raised, ValueError):
+        if c.get("either") and accepted and isinstance(raised, (ValueError, TypeError)):
             accepted = False   # the allowed refusal: the state must be unchanged
-            ctx.label("permuted_repeat_batch_refused")
+            ctx.label("either_outcome_op_refused:" + c["op"])
         elif c.get("either") and accepted:
-            ctx.label("permuted_repeat_batch_accepted")
+            ctx.label("either_outcome_op_accepted:" + c["op"])
         ctx.label("op:" + c["op"])
         if aop.get("same_node_set_batch") and c["op"] == "add_edges" and len(c["es"]) >= 2:
             ctx.label(("accepted" if accepted else "rejected") + "_batch_listing_one_node_set_repeatedly"
@@ -902,7 +914,8 @@ def op_strategy(draw, weighted, kinds, t_strategy=None, clear=True):
                   metas=draw(st.one_of(st.none(), st.lists(S.metadata(), min_size=1, max_size=4))),
                   first_meta_missing=draw(st.integers(0, 7)) == 0)
     elif k == "add_edge":
-        op.update(edge=draw(e_mixed), w=draw(weight_for(weighted)), meta=draw(S.opt_metadata()))
+        op.update(edge=draw(e_mixed), w=draw(weight_for(weighted)), meta=draw(S.opt_metadata()),
+                  container=draw(st.sampled_from([None] * 6 + ["list", "frozenset"])))
     elif k == "add_edges":
         wv = st.one_of(st.integers(1, 9), st.integers(1, 9), st.sampled_from([0, 0.5, 2.5]))
         ws = (st.one_of(st.none(), st.lists(wv, min_size=4, max_size=4))
